@@ -8,7 +8,7 @@ OUT=seeded/RESULTS.tsv
 for d in ${@:-$(ls -d seeded/C*-m* | xargs -n1 basename)}; do
   id=${d%%-*}
   [ -f props/$id.json ] || { echo -e "$d\t$id\tno-check\t-\t-\t-" >> $OUT; continue; }
-  git -C /repo apply seeded/$d/patch.diff || { echo -e "$d\t$id\tapply-failed\t-\t-\t-" >> $OUT; continue; }
+  git -C /repo apply /verif/seeded/$d/patch.diff || { echo -e "$d\t$id\tapply-failed\t-\t-\t-" >> $OUT; continue; }
   t0=$(date +%s)
   res=$(./check $id quick 2>&1)
   rc=$?
